@@ -532,33 +532,52 @@ func buildPLYColour(s src) *file {
 		{"vertex", nv, vprops},
 		{"face", nf, []plyProp{{pick(s, []string{"uchar", "uint8"}, "lenname"), pick(s, []string{"int", "int32"}, "intname"), "vertex_index"}}},
 	}
+	// an extra element with properties of its own; a header may use an element name twice, so it is sometimes a
+	// second "face" or "vertex" (the mesh reader has to turn that file down), before, between or after the others
 	extra := s.Int(0, 3, "extra") == 0
+	faceEl := elems[1]
 	if extra {
-		elems = append(elems, plyElem{"edge", s.Int(0, 2, "nedges"), []plyProp{{"", "int", "a"}, {"", "short", "b"}}})
+		ex := plyElem{pick(s, []string{"edge", "edge", "face", "vertex"}, "extraname"), s.Int(0, 2, "nedges"), []plyProp{{"", "int", "a"}, {"", "short", "b"}}}
+		if ex.name != "edge" {
+			f.Kind += "-second-" + ex.name + "-element"
+		}
+		switch s.Int(0, 3, "extrapos") {
+		case 0:
+			elems = []plyElem{ex, elems[0], elems[1]}
+		case 1:
+			elems = []plyElem{elems[0], ex, elems[1]}
+		default:
+			elems = append(elems, ex)
+		}
 	}
 	w.header(elems, s.Int(0, 3, "comment") == 0)
-	for i := 0; i < nv; i++ {
-		for _, p := range vprops {
-			if plyKind(p.elemType) == "f32" {
-				w.value(p.elemType, "num", 0, floatVal(s), 0)
-			} else {
-				w.value(p.elemType, "num", int64(s.Int(0, 255, "colour")), 0, 0)
+	for _, el := range elems {
+		switch {
+		case len(el.props) == 2: // the extra element
+			for i := 0; i < el.count; i++ {
+				w.value("int", "num", int64(s.Int(-5, 5, "a")), 0, 0)
+				w.value("short", "num", int64(s.Int(-5, 5, "b")), 0, 0)
+				w.endRow()
 			}
-		}
-		w.endRow()
-	}
-	for i := 0; i < nf; i++ {
-		w.value(elems[1].props[0].lenType, "len", 3, 0, 0)
-		for j := 0; j < 3; j++ {
-			w.value(elems[1].props[0].elemType, "index", int64(s.Int(0, nv-1, "vi")), 0, int64(nv))
-		}
-		w.endRow()
-	}
-	if extra {
-		for i := 0; i < elems[2].count; i++ {
-			w.value("int", "num", int64(s.Int(-5, 5, "a")), 0, 0)
-			w.value("short", "num", int64(s.Int(-5, 5, "b")), 0, 0)
-			w.endRow()
+		case el.name == "vertex":
+			for i := 0; i < nv; i++ {
+				for _, p := range vprops {
+					if plyKind(p.elemType) == "f32" {
+						w.value(p.elemType, "num", 0, floatVal(s), 0)
+					} else {
+						w.value(p.elemType, "num", int64(s.Int(0, 255, "colour")), 0, 0)
+					}
+				}
+				w.endRow()
+			}
+		default:
+			for i := 0; i < nf; i++ {
+				w.value(faceEl.props[0].lenType, "len", 3, 0, 0)
+				for j := 0; j < 3; j++ {
+					w.value(faceEl.props[0].elemType, "index", int64(s.Int(0, nv-1, "vi")), 0, int64(nv))
+				}
+				w.endRow()
+			}
 		}
 	}
 	return f
